@@ -266,3 +266,18 @@ pub mod prelude {
     pub use crate::errs::{DescribeErr, IfaceErr, MonErr, PlanErr};
     pub use crate::{echo_mut, echo_query, j, note_new, MyMsg, MyQuery, Pt, ReplyObs, Shape};
 }
+
+/// Bound for the type parameters of generated generic contracts and the associated types of
+/// generated interfaces: everything a message field has to be.
+pub trait Param:
+    serde::Serialize + serde::de::DeserializeOwned + Clone + std::fmt::Debug + PartialEq + schemars::JsonSchema
+{
+}
+impl<T> Param for T where
+    T: serde::Serialize + serde::de::DeserializeOwned + Clone + std::fmt::Debug + PartialEq + schemars::JsonSchema
+{
+}
+
+/// A bound that relates two type parameters and is satisfied by every pair of types.
+pub trait Rel<X: ?Sized> {}
+impl<A: ?Sized, X: ?Sized> Rel<X> for A {}
